@@ -4,7 +4,7 @@ import json, os
 V = os.path.dirname(os.path.dirname(os.path.abspath(__file__)))
 ids = [json.loads(l)["id"] for l in open(os.path.join(V, "properties.jsonl"))]
 
-TRUST = ("Trusted: Verus+Z3, rustc front end, the vx extractor (rewrite rules R0-R37 logged per run), the prelude "
+TRUST = ("Trusted: Verus+Z3, rustc front end, the vx extractor (rewrite rules R0-R38 logged per run), the prelude "
          "stand-ins for dependencies (listed per run in evidence.trusted_base). ")
 
 SMNOTE = (TRUST + "State-machine group: the embedder traits (Storage, PolicyEngine, Installer, Timer, TimeSource, MetricsReporter, HttpRequest, "
